@@ -483,7 +483,7 @@ func c9schedUnits(tier string) []mc.Unit {
 				o := out.String() + "|" + strings.Join(obs, ",")
 				r.Outcome(p.name + o)
 				orders[o] = true
-				ok := c9judge(r, fmt.Sprintf("pool=%s schedule=%v", p.name, c.Choices()), []string{"schedule", p.name}, c.Choices(), out, parts, want)
+				c9judge(r, fmt.Sprintf("pool=%s schedule=%v", p.name, c.Choices()), []string{"schedule", p.name}, c.Choices(), out, parts, want)
 				if out.Stuck {
 					return false
 				}
